@@ -19,6 +19,7 @@ CLAIMED = {
  "C16": ("exploration", "Seeded request histories through the real etcd handler objects of a real NewServer node (leader via the real elector) compared in lock-step with an executable etcd-semantics reference model; unsupported shapes from a grammar must be rejected without mutation or executed exactly as the reference prescribes. Sequential: the deciding step is seeded history generation against a reference model.", "6 (C16)"),
  "C18": ("exploration", "Two real server objects over one engine with a simulated peer transport; full request-type x role x proxy x peer-state matrix per run class, plus concurrent follower reads against a writing leader under seeded schedules and delayed responses; freshness judged against the leader's committed revision sampled at the read's invoke step, content against the MVCC model.", "6 (C18)"),
  "C20": ("exploration", "Seeded hostile requests through both handler sets of a real NewServer leader with the real Prometheus client, racing clients, failing streams; a liveness probe after requests turns 'wedged' into an observable; panics recovered on request goroutines, worker deaths with repository frames re-executed in a fresh process; recording wrapper checks metric name -> kind/label-set consistency independent of order.", "6 (C20)"),
+ "C17": ("exploration", "Seeded histories over event keys, look-alikes and ordinary keys on the simulated clock (pauses around the TTL, compaction marks), on native-TTL engines (memkv timers, Badger entry TTL on the fake clock) and TTL-less engines (seam freedom, TiKV mock); expiry model over observed reads, engine dump for whole-key removal, re-creation probe, watch stream compared with client writes only.", "6 (C17)"),
 }
 TECH = "deterministic simulation with fault injection (seeded token scheduler over testing/synctest, simkv fault seam, reference-model oracles)"
 NOTE = "Trusted: Go 1.26.8 testing/synctest quiescence, the simulator's decoder of the key layout, the hook lines (add-only, tag verif). Sampled search: clean run = evidence, not proof."
